@@ -12,9 +12,9 @@ pub mod label;
 pub mod mlpg_adjust;
 pub mod model;
 pub mod speech;
-pub mod vocoder;
 #[cfg(jbonsai_verif)]
 pub mod verif;
+pub mod vocoder;
 
 pub use engine::*;
 
